@@ -276,10 +276,22 @@ cases = {'fault in a utility': (LogLogit({1: bad, 2: one}, {1: one, 2: one}, Var
          'fault in an availability': (LogLogit({1: one, 2: one}, {1: one, 2: bad}, Variable('y')), 1),
          'fault in the choice': (LogLogit({1: one, 2: one}, {1: one, 2: one}, bad), 1),
          'key sets differ': (LogLogit({1: one, 2: one}, {1: one, 3: one}, Numeric(1)), 1),
+         'availability for an unknown alternative': (LogLogit({1: one, 2: one}, {1: one, 2: one, 3: one}, Numeric(1)), 1),
+         'utility without availability': (LogLogit({1: one, 2: one, 3: one}, {1: one, 2: one}, Numeric(1)), 1),
          'fault and key sets': (LogLogit({1: bad, 2: one}, {1: one}, Numeric(1)), 2),
          'valid': (LogLogit({0: Variable('x'), 1: one}, {0: one, 1: one}, Variable('y')), 0)}
-got = {k: len(e.audit(flat)[0]) for k, (e, _) in cases.items()}
-inc = all(included(e, flat) for e, _ in cases.values())
+def nerr(e):
+    try:
+        return len(e.audit(flat)[0])
+    except Exception as ex:
+        return f'{type(ex).__name__} raised'
+def inc_ok(e):
+    try:
+        return included(e, flat)
+    except Exception:
+        return False
+got = {k: nerr(e) for k, (e, _) in cases.items()}
+inc = all(inc_ok(e) for e, _ in cases.values())
 violated = not (all(got[k] == cases[k][1] for k in cases) and inc)
 detail = f'errors {got}, wanted { {k: v[1] for k, v in cases.items()} }; child errors included: {inc}'
 ''')
